@@ -2,7 +2,7 @@
    Statements only; every theorem is closed by [exact] of a lemma proved in coq/c16/*Proofs.v.
    Stream.v transcribes cli/stream.go (jsonStream.next) over the token sequence of encoding/json. *)
 From Coq Require Import List NArith.
-From Verif Require Import c16.Stream c16.StreamProofs.
+From Verif Require Import c16.Stream c16.StreamProofs c16.StreamPos c16.StreamPosProofs c16.Fromstream c16.FromstreamProofs.
 Import ListNotations.
 
 (* --stream: for every sequence of documents (objects in document key order), the events produced by
@@ -18,6 +18,13 @@ Theorem C16_stream_tostream_doc : forall d,
 Proof. exact stream_tostream_doc_lemma. Qed.
 Print Assumptions C16_stream_tostream_doc.
 
+(* fromstream: Fromstream.v transcribes builtin.jq's fromstream (and the setpath it uses); applied to
+   the events that --stream emits for documents with duplicate-free keys it returns the documents *)
+Theorem C16_fromstream_events : forall ds, forallb nodup_keys ds = true ->
+  fromstream_model (events_of (stream_events (tokens_docs ds) EndEOF)) = Some ds.
+Proof. exact fromstream_stream_lemma. Qed.
+Print Assumptions C16_fromstream_events.
+
 (* truncation at any token boundary (the tokenizer then fails): a prefix of the full events, then
    exactly one error, then end of input *)
 Theorem C16_stream_truncated : forall ds ts1 ts2,
@@ -26,6 +33,23 @@ Theorem C16_stream_truncated : forall ds ts1 ts2,
               /\ flat_map tostream_doc_order ds = evs ++ tl.
 Proof. exact stream_truncated_lemma. Qed.
 Print Assumptions C16_stream_truncated.
+
+(* … and at full strength: the run on the first k tokens yields EXACTLY the events determined by those
+   tokens (every tostream event is determined by one token: a scalar leaf by the scalar, an empty
+   container leaf and a closing event by the closing bracket; StreamPos.events_before) — "all events
+   before the cut" — however the token sequence ends *)
+Theorem C16_stream_truncated_exact : forall ds k e, (k <= List.length (tokens_docs ds))%nat ->
+  events_of (stream_events (firstn k (tokens_docs ds)) e) = events_before k ds.
+Proof. exact stream_truncated_exact_lemma. Qed.
+Print Assumptions C16_stream_truncated_exact.
+
+(* a clean io.EOF from the tokenizer strictly inside a document (cut at a token boundary, e.g. after
+   a comma) is still reported as an error (io.ErrUnexpectedEOF) *)
+Theorem C16_stream_truncated_eof : forall ds1 d ts1 ts2,
+  tokens d = ts1 ++ ts2 -> ts1 <> [] -> ts2 <> [] ->
+  final_of (stream_events (tokens_docs ds1 ++ ts1) EndEOF) = Err.
+Proof. exact stream_truncated_eof_lemma. Qed.
+Print Assumptions C16_stream_truncated_eof.
 
 (* [run] is the iteration of the transcribed next() *)
 Theorem C16_run_is_next_iterated : forall s ts e,
